@@ -1080,3 +1080,49 @@ Section OpRel.
       eapply (MR_upd c m s); try exact R; try exact I1; try reflexivity; try apply R.
   Qed.
 End OpRel.
+
+(* ================================================================== the run *)
+Lemma run_mon c (Hq : (1 <= cf_qcap c)%nat) ops : forall s m,
+  MR c m s -> (N.of_nat (length (calls s) + length ops) < two64)%N ->
+  c02_run c m ops (wrun_from s ops) = true.
+Proof.
+  induction ops as [|o r IH]; intros s m R Hb; [reflexivity|].
+  assert (Hnw : NW s) by (unfold NW; cbn [length] in Hb; lia).
+  pose proof (mr_inv _ _ _ R) as I.
+  destruct (Inv_wstep s o I Hnw) as [_ L1].
+  destruct o as [o|]; cbn [wrun_from wstep] in *.
+  - destruct (step stp sfuel s (to_op o)) as [s1 l] eqn:Es. cbn [fst] in L1.
+    change (c02_run c m (WOp o :: r) (WO l :: wrun_from s1 r))
+      with (no_panic l && c02_run c (op_mon m o l) r (wrun_from s1 r)).
+    destruct (MR_op c m s o s1 l R Hnw Es) as [Np R1]. rewrite Np. cbn [andb].
+    apply IH; [exact R1|]. cbn [length] in Hb. lia.
+  - destruct (settle stp sfuel (rounds_of s + length (st_inbox (tr s))) s sobs0) as [s1 rr] eqn:Es.
+    cbn [fst] in L1.
+    destruct (MR_settle c m s s1 rr R Hnw Es) as (Hf & R1 & Q1). rewrite Hf.
+    change (c02_run c m (WSettle :: r)
+              (WS (so_sent rr) (so_read rr) (so_done rr) (so_disp rr)
+                  (N.of_nat (length (inflight s1))) (N.of_nat (length (timers s1))) :: wrun_from s1 r))
+      with (let m1 := settle_mon m rr in
+            (negb (wm_dead m1) || negb (wm_unresolved m1))
+            && (negb (negb (wm_ended m1) && (wm_ready m1 && wm_flush m1 && negb (wm_tainted m1)
+                                             && (Nat.eqb (cf_cap c) 0 || cf_coupled c))
+                      && wm_unresolved m1 && (1 <=? cf_maxif c)%nat)
+                || (1 <=? N.of_nat (length (inflight s1)))%N)
+            && (wm_ended m1 || wm_tainted m1 || Nat.eqb (wm_delivered m1) (wm_read m1))
+            && c02_run c m1 r (wrun_from s1 r)).
+    cbv zeta. rewrite (settle_clauses c (settle_mon m rr) s1 _ R1 Q1 Hq eq_refl). cbn [andb].
+    apply IH; [exact R1|]. cbn [length] in Hb. lia.
+Qed.
+
+Theorem c02_monitor_holds : stmt_c02_monitor.
+Proof.
+  unfold stmt_c02_monitor, c02_ok, wrun. intros c ops Hw Hq.
+  apply run_mon; [exact Hq| |unfold wno_wrap, two64 in *; cbn; exact Hw].
+  constructor; try reflexivity.
+  - apply Inv_cinit.
+  - intros j (k & Ek & _). destruct j; discriminate.
+  - intros _. split; reflexivity.
+  - discriminate.
+  - intros _. repeat split; reflexivity.
+Qed.
+Print Assumptions c02_monitor_holds.
